@@ -331,7 +331,8 @@ Inductive op :=
 | AddSlide (l : nat)
 | NotesSlide (s : nat)
 | Edit (tg : target) (e : edit)
-| AddTextbox (s : nat) (x y cx cy : Z).
+| AddTextbox (s : nat) (x y cx cy : Z)
+| ClonePh (s l i : nat).      (* slide.shapes.clone_placeholder(layout.placeholders[i]) on an existing slide *)
 
 (** apply an edit to the i-th shape of a tree *)
 Definition edit_tree (t : list shape) (i : nat) (e : edit) : list shape * res unit :=
@@ -363,6 +364,23 @@ Definition step (c : cfg) (d : deck) (o : op) : deck * res unit :=
       | Some _ =>
           (set_slides d (upd_nth s (fun sl => mk_slide (sl_layout sl) (add_textbox (sl_shapes sl) x y cx cy) (sl_notes sl))
                                  (d_slides d)), Ok tt)
+      end
+  | ClonePh s l i =>
+      match nth_error (d_slides d) s with
+      | None => (d, Err IndexErr)
+      | Some sl =>
+          match nth_error (d_layouts d) l with
+          | None => (d, Err IndexErr)
+          | Some L =>
+              match nth_error (phs (l_shapes L)) i with
+              | None => (d, Err IndexErr)
+              | Some p =>
+                  match clone_placeholder c KSlide (sl_shapes sl) p with
+                  | Ok t => (set_slides d (upd_nth s (fun sl => mk_slide (sl_layout sl) t (sl_notes sl)) (d_slides d)), Ok tt)
+                  | Err e => (d, Err e)
+                  end
+              end
+          end
       end
   | Edit (TSlide s i) e =>
       match nth_error (d_slides d) s with
